@@ -42,7 +42,7 @@ describe(
         "default; the missing-required test precedes and short-circuits type validation; read-only queries write "
         "no grammar state (lazy caches and the paired required-names window excepted)."
     ),
-    decided=["15.1 JSON validator/schema invalidation", "15.1b pydantic model rebuild", "15.2 required names and defaults follow edits", "15.3 only existing names", "15.4 validation order", "15.5 queries do not edit", "15.6 a copy owns its elements", "15.8 the required set of the schema builder is empty between calls"],
+    decided=["15.1 JSON validator/schema invalidation", "15.1b pydantic model rebuild", "15.2 required names and defaults follow edits", "15.3 only existing names", "15.4 validation order", "15.5 queries do not edit", "15.6 a copy owns its elements", "15.8 the required set of the schema builder is empty between calls", "15.11 rename hooks move the element", "15.8 also for the builder of a copy"],
     not_decided=["equivalence with a reference JSON-schema validator", "agreement of JSON and simple grammars on common definitions"],
     trusted=["fastjsonschema / pydantic validate what their compiled schema says"],
 )
